@@ -139,8 +139,16 @@ pub fn convert_bsei_stsei(
     let bsei_amount_with_fee: Uint128;
     if state.bsei_exchange_rate < threshold {
         let max_peg_fee = bsei_amount * recovery_fee;
-        let required_peg_fee = (total_bsei_supply + current_batch.requested_bsei_with_fee)
-            .checked_sub(state.total_bond_bsei_amount)?;
+        let claims = total_bsei_supply + current_batch.requested_bsei_with_fee;
+        let gap = claims.checked_sub(state.total_bond_bsei_amount)?;
+        // the converted tokens leave the pool, so only the gap attributable to the
+        // remaining claims has to be recovered; charging the whole gap would push
+        // the rate above the peg
+        let required_peg_fee = if bsei_amount > gap {
+            gap.multiply_ratio(claims.checked_sub(bsei_amount)?, state.total_bond_bsei_amount)
+        } else {
+            gap
+        };
         let peg_fee = Uint128::min(max_peg_fee, required_peg_fee);
         bsei_amount_with_fee = bsei_amount.checked_sub(peg_fee)?;
     } else {
